@@ -341,4 +341,8 @@ def families(tier):
     for t in (TRIANGLES if tier == 'thorough' else ['ccw-acute']):
         fams.append(('encloses-%s' % t, M, 'fam_encloses', {'tri': t}))
     fams.append(('is-contained-by', M, 'fam_contained', {}))
+    # the enclosure probe is a Line intersected with every segment of the outline: for arcs, the closed form of Arc x Line (shared with C11)
+    for nm, rad in (('2x1', (2.0, 1.0)), ('1x3', (1.0, 3.0)), ('circle', (2.0, 2.0))):
+        for ln in ('slope', 'vertical'):
+            fams.append(('arc-line-closed-form-%s-%s' % (nm, ln), 'vf.props.c11', 'fam_arc_line_candidates', {'radii': rad, 'line': ln}))
     return fams
